@@ -8,6 +8,12 @@ lang case : one bait (a seed of some rule in its native language) stored under a
             (c) language   a source-analysis rule reports on f only if lang(f) is one of the rule's documented
                            languages; unrecognised type => no source-analysis violation; an upper/mixed-case
                            extension or an extensionless python-shebang script gives the lower-case / .py result.
+link case : the linted name is not a regular file but a symbolic link (relative / absolute) or a hard link whose target has a name of
+            ANOTHER type (unknown-type name -> source target, source name -> unknown-type target, foreign source name -> native
+            target and back, extensionless + python shebang -> .rs/.ts/.js target), the target lying in the project (pkg/) or beside
+            it (../shared/). The file is the directory entry that is linted and reported: its OWN name (and the content read
+            through it) gives the language, so (a)+(c) as above for link and target each under its own name, and every command
+            must report on the link exactly what it reports on a regular file of that name and content.
 mix case  : a project holding bait for every rule of every language; command X is run under the default
             config, after another command Y has run, and under Hypothesis-drawn documented settings of the
             OTHER linters' sections: (b) X's multiset must not move (and (a) again).
@@ -25,13 +31,15 @@ from vf.engine import Case, Failure, h
 from vf.project import Project
 
 ID = "C15"
-TECHNIQUE = ("exhaustive matrix extension/shebang x bait x command against a rule-ownership table (re-derived from the registry "
+TECHNIQUE = ("exhaustive matrix extension/shebang x directory-entry kind (regular, symlink, hard link to a target of another type) x bait x command against a rule-ownership table (re-derived from the registry "
              "at run time) and a documented language map; Hypothesis-drawn configurations of the other linters' sections for "
              "the non-interference differential")
 RULE = (
     "lang case = (extension or shebang kind, bait = seed of one rule family in its native language, variant) and all 20 commands "
     "are run on it; non-trivial iff the bait fires under its native extension (validated per run) AND the file's language differs "
     "from the bait's (foreign, unknown type, case variant or shebang). Distinct = (extension/shebang, bait family, bait language). "
+    "link case = lang case whose file is a symlink/hard link (kind of link, target inside/outside the project, target extension of another "
+    "type); non-trivial iff the bait fires natively; distinct = (name extension, target extension, link kind, target place, bait). "
     "mix case = (command X, other command Y, drawn settings for sections other than X's, key spelling); non-trivial iff X reports "
     ">= 1 violation on the all-baits project AND the drawn settings change Y's output. Distinct = (X, Y, set of drawn sections+keys)."
 )
@@ -41,6 +49,10 @@ ASSUMPTIONS = [
     "last suffix) and extensionless files without a python shebang; "
     ".mjs/.cjs/.mts/.pyi/.pyw are not generated (the docs do not say what they are)",
     "python shebangs generated: `#!/usr/bin/env python3`, `#!/usr/bin/python`; a mapped/unmapped extension WITH a shebang is not generated",
+    "a symbolic or hard link is a file of the type its OWN name says (the name under which it is linted and reported), never of its "
+    "target's; a python shebang under an unmapped extension is not generated for link targets either; in a link case whose target is "
+    "itself a source file in the project the cross-file commands (dry, stringly-typed) are held to the language check only; links to "
+    "directories, dangling links and link chains are not generated",
     "source-analysis rule = every rule family except file-placement and file-header (those judge any path / non-code types by design)",
     "other-section settings are documented keys with valid values only; top-level keys that are not a linter's section are not drawn",
     "in-process CLI (click CliRunner) equals a fresh process; cross-checked on the first cases of every run",
@@ -244,35 +256,73 @@ def ownership_failures(obs, fails, info):
 # ------------------------------------------------------------------------------------ lang cases
 
 
+LINK_HOWS = ("sym-rel", "sym-abs", "hard")  # relative symlink, absolute symlink, hard link
+LINK_WHERE = ("inside", "outside")         # the link's target lies in the project (pkg/) or beside it (../shared/)
+
+
+def _make_links(p, names, tnames, texts, link):
+    """Store the bait under the target names and make every linted name a link to it."""
+    tdir = os.path.join(p.root, "pkg") if link["where"] == "inside" else os.path.join(p.top, "shared")
+    os.makedirs(tdir, exist_ok=True)
+    for name, tname, text in zip(names, tnames, texts):
+        target = os.path.join(tdir, tname)
+        with open(target, "w", encoding="utf-8", newline="") as fh:
+            fh.write(text)
+        dest = os.path.join(p.root, name)
+        if link["how"] == "hard":
+            os.link(target, dest)
+        elif link["how"] == "sym-abs":
+            os.symlink(target, dest)
+        else:
+            os.symlink(os.path.relpath(target, p.root), dest)
+
+
 def check_lang(case) -> Case:
     ext, sb, (fam, blang), var = case["ext"], case.get("shebang"), case["bait"], case["var"]
+    link = case.get("link")
     texts = bait_texts(fam, blang, var)
     if sb:
         texts = [SHEBANGS[sb] + "\n" + t for t in texts]
     names = _names(len(texts), ext)
     flang = lang_of(ext, sb)
+    file_lang = dict.fromkeys(names, flang)  # base name -> language the statement gives the file
     info = {"files": names, "bait": f"{fam}/{blang}", "first_lines": texts[0].splitlines()[:3]}
     fails = []
-    with Project(dict(zip(names, texts)), config=BASE_CFG) as p:
-        obs = run_all(p.root, CMDS, fails, info)
+    tlang = None
+    if link:
+        # the linted name is a LINK (its own name decides the type); the content lives under another name / type
+        tnames = [f"orig{'ab'[i]}{link['target_ext']}" for i in range(len(texts))]
+        tlang = lang_of(link["target_ext"], sb)
+        if link["where"] == "inside":
+            file_lang.update(dict.fromkeys(tnames, tlang))
+        info.update(link=link, targets=tnames)
+        with Project({}, config=BASE_CFG) as p:
+            _make_links(p, names, tnames, texts, link)
+            obs = run_all(p.root, CMDS, fails, info)
+    else:
+        with Project(dict(zip(names, texts)), config=BASE_CFG) as p:
+            obs = run_all(p.root, CMDS, fails, info)
     ownership_failures(obs, fails, info)
     # (c) language
     kind = "native" if (ext in EXT_LANG and flang == blang) else "case-variant" if (ext and ext != ext.lower() and flang) else \
         "shebang-python" if (not ext and flang) else "unknown-type" if flang is None else "foreign-language"
+    via = ("|via-hardlink" if link["how"] == "hard" else "|via-symlink") if link else ""
     for cmd, vs in obs.items():
         for v in vs:
             f = family_of(v["rule_id"])
             base = os.path.basename(v["file_path"])
-            if f in NOT_SOURCE_ANALYSIS or base not in names or not belongs(v["rule_id"], cmd):
+            if f in NOT_SOURCE_ANALYSIS or base not in file_lang or not belongs(v["rule_id"], cmd):
                 continue
-            if flang not in LANGS[f]:
-                where = "unknown-type" if flang is None else f"{flang}-file"
-                fails.append(Failure(f"language|{f}|reports-on-{where}", {"cmd": cmd, "violation": v, "file_language": flang,
-                                                                         "rule_languages": sorted(LANGS[f]), **info}))
+            if file_lang[base] not in LANGS[f]:
+                where = "unknown-type" if file_lang[base] is None else f"{file_lang[base]}-file"
+                fails.append(Failure(f"language|{f}|reports-on-{where}{via if base in names else ''}",
+                                     {"cmd": cmd, "violation": v, "file_language": file_lang[base], "rule_languages": sorted(LANGS[f]), **info}))
                 break
-    # case variants / python shebang: same result as the canonical spelling
+    # case variants / python shebang: same result as the canonical spelling; a link: same result as a regular file of that name
     ref_ext = None
-    if kind == "case-variant":
+    if link:
+        ref_ext = ext
+    elif kind == "case-variant":
         ref_ext = ext.lower()
     elif kind == "shebang-python":
         ref_ext = ".py"
@@ -281,20 +331,40 @@ def check_lang(case) -> Case:
         with Project(dict(zip(ref_names, texts)), config=BASE_CFG) as p:
             ref = run_all(p.root, CMDS, fails, {**info, "files": ref_names})
         rename = dict(zip(names, ref_names))
+        # a target that lies in the project and is a source file itself takes part in the cross-file rules (and has findings of
+        # its own): there only the findings ON the link are compared, and the cross-file commands are left to the language check
+        target_linted = bool(link) and link["where"] == "inside" and tlang is not None
+        link_diffs = {}
         for cmd in CMDS:
             if cmd in obs and cmd in ref:
-                if kind == "shebang-python" and cmd in NOT_SOURCE_ANALYSIS:
+                if kind == "shebang-python" and not link and cmd in NOT_SOURCE_ANALYSIS:
                     continue  # judged on the path / non-code type, not on the language
-                a, b = ms(obs[cmd], rename), ms(ref[cmd])
-                if a != b:
+                if target_linted and cmd in ("dry", "stringly-typed"):
+                    continue
+                mine = [v for v in obs[cmd] if os.path.basename(v["file_path"]) in names] if link else obs[cmd]
+                a, b = ms(mine, rename), ms(ref[cmd])
+                if a != b and link:
+                    link_diffs[cmd] = runner.diff_multisets(a, b)
+                elif a != b:
                     fails.append(Failure(f"{kind}|{cmd}|differs-from-canonical-spelling", {"cmd": cmd, "ext": ext, "shebang": sb,
                                                                                  **runner.diff_multisets(a, b), **info}))
+        if link_diffs:  # one root cause (how a link's type is decided), whatever the commands that show it
+            shape = f"{'source' if flang else 'unknown-type'}-name-to-{'source' if tlang else 'unknown-type'}-target"
+            fails.append(Failure(f"link|{'hardlink' if link['how'] == 'hard' else 'symlink'}|{shape}|differs-from-regular-file-of-that-name",
+                                 {"ext": ext, "shebang": sb, "name_language": flang, "target_language": tlang,
+                                  "left=link, right=regular file; per command": link_diffs, **info}))
     fires = native_fires(fam, blang, var)
-    nontrivial = fires and kind != "native"
+    nontrivial = fires and (kind != "native" or bool(link))
     total = sum(len(v) for v in obs.values())
     labels = [f"kind={kind}", f"ext={ext or 'none'}{('+' + sb) if sb else ''}", f"bait={fam}/{blang}", f"file-lang={flang}",
               "bait-fires-natively" if fires else "bait-silent-natively", f"violations={'0' if not total else '1+'}"]
-    return Case(key=h(["lang", ext, sb, fam, blang]), nontrivial=nontrivial, labels=labels, failures=fails)
+    if link:
+        labels += [f"entry={link['how']}", f"link-target={link['where']}", f"link={ext or 'none'}->{link['target_ext'] or 'none'}",
+                   f"link-langs={flang}<-{tlang}"]
+    else:
+        labels.append("entry=regular")
+    return Case(key=h(["lang", ext, sb, fam, blang] + ([link["how"], link["where"], link["target_ext"]] if link else [])),
+                nontrivial=nontrivial, labels=labels, failures=fails)
 
 
 def lang_cells():
@@ -304,6 +374,45 @@ def lang_cells():
         for sb in sbs:
             for i, (fam, lang) in enumerate(BAITS):
                 cells.append({"kind": "lang", "ext": ext, "shebang": sb, "bait": [fam, lang], "var": i % 2})
+    return cells
+
+
+UNKNOWN_LINK_EXTS = ("", ".txt", ".md")
+UNKNOWN_TARGET_EXTS = (".txt", "")
+SOURCE_EXTS = (".py", ".ts", ".js", ".rs", ".tsx", ".jsx")
+
+
+def link_cells():
+    """The linted name is a symbolic (relative / absolute) or hard link; name and target differ in type.
+
+    per bait (native extension N):  unknown-type name -> N / upper-case N;  N / upper-case N -> unknown-type target;
+    foreign source name -> N;  N -> foreign source target;  extensionless + python shebang -> .rs/.ts/.js;
+    extensionless + non-python first line -> N.  Kind of link and
+    place of the target (in the project / beside it) rotate over the rows so that every row shape meets every combination.
+    """
+    cells = []
+
+    def add(ext, target_ext, bait, var, sb=None):
+        n = len(cells)
+        # (the quick tier takes every 3rd row: rotate in blocks of 3 so that each residue class meets all six combinations)
+        link = {"how": LINK_HOWS[(n // 3) % 3], "where": LINK_WHERE[(n // 9) % 2], "target_ext": target_ext}
+        cells.append({"kind": "lang", "ext": ext, "shebang": sb, "bait": list(bait), "var": var, "link": link})
+
+    for i, (fam, lang) in enumerate(BAITS):
+        nat = seeds.EXT[lang]
+        foreign = [e for e in SOURCE_EXTS if EXT_LANG[e] != lang]
+        var = i % 2
+        for e in UNKNOWN_LINK_EXTS:
+            add(e, nat, (fam, lang), var)
+        add(UNKNOWN_LINK_EXTS[i % 3], nat.upper(), (fam, lang), var)
+        add(nat, UNKNOWN_TARGET_EXTS[i % 2], (fam, lang), var)
+        add(nat.upper(), UNKNOWN_TARGET_EXTS[(i + 1) % 2], (fam, lang), var)
+        add(foreign[i % len(foreign)], nat, (fam, lang), var)
+        add(foreign[(i + 2) % len(foreign)], nat, (fam, lang), var)
+        add(nat, foreign[(i + 1) % len(foreign)], (fam, lang), var)
+        # (python shebang under an unmapped EXTENSION is outside the statement - see ASSUMPTIONS - so the target is a source type)
+        add("", (".rs", ".ts", ".js")[i % 3], (fam, lang), var, sb="py3")
+        add("", nat, (fam, lang), var, sb=("sh", "pycomment")[i % 2])
     return cells
 
 
@@ -538,6 +647,12 @@ def run(ctx):
     mine = ctx.my_cells(cells)
     done = ctx.each(mine, check)
     m["extension/shebang x bait (x 20 commands each)"] = {"cells": len(mine), "done": done}
+    cells = link_cells()
+    if ctx.quick:  # every 3rd row, rotating with the seed (11 rows per bait: the stride meets every row shape and link kind)
+        cells = [c for i, c in enumerate(cells) if (i + ctx.seed) % 3 == 0]
+    mine = ctx.my_cells(cells)
+    done = ctx.each(mine, check)
+    m["link name type x target type x link kind x target place x bait (x 20 commands each)"] = {"cells": len(mine), "done": done}
     mine = ctx.my_cells(mix_cells())
     done = ctx.each(mine, check)
     m["command X x all other sections disabled x key spelling"] = {"cells": len(mine), "done": done}
